@@ -152,6 +152,9 @@ def st_case(draw, max_len=25):
         if again and k == again_at:
             size = sizes[again_addr] if again == 1 else draw(st.sampled_from(SIZE_CONST + IDX_CONST))
             body = [["array", [size, {"addr": again_addr}]]] + body
+            if draw(st.booleans()):
+                # ... and returned again at its new length (the host's copy must be replaced, not refreshed at the old length)
+                body = body + [["ret_arr", [{"addr": again_addr}]]]
         if k == 0:
             # jump targets never land inside the prefix (it only runs once, so registers stay write-before-read
             # and arrays are declared once)
